@@ -56,6 +56,21 @@ CLAIMED = {
                      "and re.split (validated against CPython on every run, exit 2 on mismatch), the 15-line canonical-spelling reference, z3 "
                      "(cvc5 re-decides a sample of the final queries in the thorough tier). Counterexamples are replayed on the real function.",
                 technique="AST-level symbolic interpretation of field.py into QF_LIA, z3 unsat per path; cvc5 cross-check"),
+    'C14': dict(text="For 3 dataclass definitions the supplied subset of fields (presence bits / positional prefix length) and the argument "
+                     "values are symbolic; on every path the constructor and the data path (mapping / sequence) must agree with each other and "
+                     "with convert(arg, field type), unsupplied fields must hold a fresh default (mutating one instance's default must not "
+                     "leak into the next), dict(set_only=True) must equal the supplied set, make_unchecked must store verbatim and the "
+                     "post-init hook must run once per instance.",
+                design_ref="DESIGN.md 5/C14", technique="symbolic execution (CrossHair+z3), construction paths against each other"),
+    'C15': dict(text="For 8 naming/layout configurations, mapping keys are chosen by the solver from a vocabulary containing every name form "
+                     "the class could know plus foreign ones (0..3 keys), sequences have symbolic length and carrier kind; acceptance, "
+                     "binding and output are compared with the property's decision table and hand-written name derivation on every path.",
+                design_ref="DESIGN.md 5/C15", technique="symbolic execution (CrossHair+z3) vs decision table"),
+    'C16': dict(text="Over the full 32-vector option cube (class statements, vector chosen by the solver) with compare/hash/repr=False fields, "
+                     "instance pairs with symbolic field values are compared: == vs pairwise field equality, the four ordering operators vs "
+                     "tuple order, trichotomy, hash category vs the stdlib dataclass built with the same options, eq => equal hash, frozen "
+                     "enforcement, copy/deepcopy/replace preserving value and set-field record, repr.",
+                design_ref="DESIGN.md 5/C16", technique="symbolic execution (CrossHair+z3), stdlib dataclass and tuple order as reference"),
 }
 
 NA = {
